@@ -164,6 +164,27 @@ class Tracker:
                 if v is not None:
                     need_checked(st, v, sid, "dereferenced")
                 return (st,)
+            # call of a closure that dereferences an iterator it captured by reference (the immediately-invoked '[&p] { ... p->value ... }()'
+            # idiom): the dereference happens here; a closure that tests or hands over the iterator before its first dereference is left alone
+            if k == "CXXOperatorCallExpr" and n.get("op") == "()":
+                for g in self.kids.get((f.unit, f.id), []):
+                    if g.id != n.get("calleeId"):
+                        continue
+                    first = {}
+                    for s2 in sorted(g.stmts):
+                        m2 = g.stmts[s2]
+                        if m2["k"] == "CXXOperatorCallExpr" and m2.get("op") in ("*", "->") and len(m2.get("args", [])) == 1:
+                            v2 = self.var_of(g, m2["args"][0])
+                            if v2 is not None and v2 != "M":
+                                first.setdefault(v2, ("deref", s2))
+                        elif m2["k"] in ("CallExpr", "CXXMemberCallExpr") or (g.binop(s2) and g.binop(s2)[0] in ("==", "!=")):
+                            for a in (m2.get("args") or []) + (list(g.binop(s2)[1:]) if g.binop(s2) else []):
+                                v2 = self.var_of(g, a)
+                                if v2 is not None and v2 != "M":
+                                    first.setdefault(v2, ("other", s2))
+                    for v2, (what, s2) in first.items():
+                        if what == "deref" and (v2 in tp or any(m3["k"] == "DeclRefExpr" and m3.get("declId") == v2 for m3 in f.stmts.values())):
+                            need_checked(st, v2, sid, "dereferenced in the closure called here (%s)" % g.short_loc(s2).rsplit("/", 1)[-1])
             # modification
             mod = None
             if k == "CXXOperatorCallExpr" and n.get("op") in ("++", "--", "+=", "-=", "=") and n.get("args"):
